@@ -2848,7 +2848,1009 @@ def gen_misc():
     return "\n".join(out) + "\n", info
 
 
+# ------------------------------------------------------------------ ownership-form bodies of the helper macros (C15)
+#
+# `helper_macros.rs` of dashu-int / dashu-float / dashu-ratio stamp out, per operator, one `impl` per ownership form
+# (val/ref x val/ref, the `*_assign` forms, the forms with a primitive on either side).  Every `fn` body inside those
+# macro rules is translated into one Lean definition over an ABSTRACT value domain `V`: every callee of the body
+# (a method, a `$metavariable` method, the `$impl!` core macro, a conversion `T::from`, a constructor) is a PARAMETER of
+# the definition (an uninterpreted function), references / dereferences / `.clone()` / `core::mem::take` are erased
+# (value semantics), `&mut self` is state passing (the definition returns the new `self`, paired with the result if
+# the `fn` has one).  The theorems of Props/C15Forms.lean then say: for EVERY interpretation of the callees, all forms of
+# one macro rule evaluate the same core call on the same operand values.  Anything outside this subset fails closed.
+
+FORMS_SOURCES = [
+    ("q", "rational/src/helper_macros.rs"),
+    ("f", "float/src/helper_macros.rs"),
+    ("i", "integer/src/helper_macros.rs"),
+]
+
+
+class PF(P2):
+    """the second parser plus: `$name!(args)` macro calls, qualified paths `<$t>::from`"""
+    def primary(self, nostruct):
+        k, v = self.peek()
+        if v == "<":
+            depth, txt = 0, []
+            while True:
+                t = self.next()[1]
+                if t == "<":
+                    depth += 1
+                elif t == ">":
+                    depth -= 1
+                    if depth == 0:
+                        break
+                if t == "eof" or t == "":
+                    raise ExtractError("unterminated qualified path")
+                txt.append(t)
+            parts = ["<" + "".join(txt[1:]) + ">"]
+            while self.peek()[1] == "::":
+                self.next()
+                parts.append(self.next()[1])
+            return ("path", parts)
+        if k == "id" and self.peek(1)[1] == "!" and self.peek(2)[1] == "(":
+            name = self.next()[1]
+            self.next()
+            return ("macro", name, self.args())
+        return P2.primary(self, nostruct)
+
+
+def _skip_trivia(s, i):
+    n = len(s)
+    while i < n:
+        if s[i].isspace():
+            i += 1
+        elif s.startswith("//", i):
+            j = s.find("\n", i)
+            i = n if j < 0 else j
+        elif s.startswith("/*", i):
+            i = s.index("*/", i) + 2
+        elif s.startswith("#[", i):
+            i = balanced(s, i + 1, "[", "]")
+        else:
+            break
+    return i
+
+
+def macro_rules_all(src, name, rel):
+    """[(pattern text, body text)] of every rule of `macro_rules! name`"""
+    m = re.search(r"macro_rules!\s+%s\s*\{" % re.escape(name), src)
+    if not m:
+        raise ExtractError("%s: macro %s not found" % (rel, name))
+    end = balanced(src, m.end() - 1)
+    body = src[m.end():end - 1]
+    rules, i = [], 0
+    while True:
+        i = _skip_trivia(body, i)
+        if i >= len(body):
+            break
+        if body[i] != "(":
+            raise ExtractError("%s: macro %s: rule head expected at %r" % (rel, name, body[i:i + 30]))
+        j = balanced(body, i, "(", ")")
+        pat = body[i + 1:j - 1]
+        k = _skip_trivia(body, j)
+        if not body.startswith("=>", k):
+            raise ExtractError("%s: macro %s: `=>` expected" % (rel, name))
+        k = _skip_trivia(body, k + 2)
+        if body[k] != "{":
+            raise ExtractError("%s: macro %s: rule body expected" % (rel, name))
+        e = balanced(body, k)
+        rules.append((pat, body[k + 1:e - 1]))
+        i = _skip_trivia(body, e)
+        if i < len(body) and body[i] == ";":
+            i += 1
+    return rules
+
+
+def _angle(s, i):
+    """s[i] == '<': index after the matching '>' (`->` does not close)"""
+    depth = 0
+    while i < len(s):
+        if s[i] == "<":
+            depth += 1
+        elif s[i] == ">" and s[i - 1] != "-":
+            depth -= 1
+            if depth == 0:
+                return i + 1
+        i += 1
+    raise ExtractError("unbalanced <>")
+
+
+def rule_items(body, where):
+    """items of a macro rule body: ("impl", header, body text) | ("invoke", macro name)"""
+    items, i = [], 0
+    while True:
+        i = _skip_trivia(body, i)
+        if i >= len(body):
+            return items
+        m = re.compile(r"impl\b").match(body, i)
+        if m:
+            b0 = body.index("{", i)
+            b1 = balanced(body, b0)
+            items.append(("impl", " ".join(body[i:b0].split()), body[b0 + 1:b1 - 1]))
+            i = b1
+            continue
+        m = re.compile(r"((?:\$?\w+::)*\w+)!\s*\(").match(body, i)
+        if m:
+            j = balanced(body, m.end() - 1, "(", ")")
+            j = _skip_trivia(body, j)
+            if j < len(body) and body[j] == ";":
+                j += 1
+            items.append(("invoke", m.group(1).split("::")[-1]))
+            i = j
+            continue
+        raise ExtractError("%s: item outside the subset (impl / macro invocation) at %r" % (where, body[i:i + 40]))
+
+
+def impl_header(h, where):
+    """`impl<…> Trait<Rhs> for Lhs` -> (trait, rhs text | None, lhs text)"""
+    s = h[4:].strip()
+    if s.startswith("<"):
+        s = s[_angle(s, 0):].strip()
+    m = re.match(r"(\$?\w+)\s*", s)
+    if not m:
+        raise ExtractError("%s: impl header %r" % (where, h))
+    trait, s = m.group(1), s[m.end():]
+    rhs = None
+    if s.startswith("<"):
+        e = _angle(s, 0)
+        rhs, s = s[1:e - 1].strip(), s[e:].strip()
+    m = re.match(r"for\s+(.+?)(?:\s+where\s.*)?$", s)
+    if not m:
+        raise ExtractError("%s: impl header %r" % (where, h))
+    return trait, rhs, m.group(1).strip()
+
+
+def impl_fn(body, where):
+    """the single fn of an impl body -> (name, [(param, kind)], has result, body text); kind: val / mut / ref"""
+    i, found = 0, None
+    while True:
+        i = _skip_trivia(body, i)
+        if i >= len(body):
+            break
+        m = re.compile(r"type\s+\$?\w+\s*=[^;]*;").match(body, i)
+        if m:
+            i = m.end()
+            continue
+        m = re.compile(r"fn\s+(\$?\w+)\s*").match(body, i)
+        if not m or found:
+            raise ExtractError("%s: impl body outside the subset (type items + one fn) at %r" % (where, body[i:i + 40]))
+        j = m.end()
+        if body[j] == "<":
+            j = _skip_trivia(body, _angle(body, j))
+        if body[j] != "(":
+            raise ExtractError("%s: fn parameter list expected" % where)
+        p1 = balanced(body, j, "(", ")")
+        b0 = body.index("{", p1)
+        sig_tail = body[p1:b0].strip()
+        if sig_tail and not sig_tail.startswith("->"):
+            raise ExtractError("%s: fn signature %r" % (where, sig_tail))
+        b1 = balanced(body, b0)
+        params = []
+        for part in split_top(body[j + 1:p1 - 1]):
+            part = " ".join(part.split())
+            if not part:
+                continue
+            if part in ("self", "mut self"):
+                params.append(("self", "val"))
+            elif part == "&self":
+                params.append(("self", "ref"))
+            elif part == "&mut self":
+                params.append(("self", "mut"))
+            else:
+                nm, ty = part.split(":", 1)
+                nm = nm.replace("mut ", "").strip()
+                if ty.strip().startswith("&mut"):
+                    raise ExtractError("%s: `&mut` parameter %s" % (where, nm))
+                params.append((nm, "val"))
+        found = (m.group(1), params, bool(sig_tail), body[b0:b1])
+        i = b1
+    if not found:
+        raise ExtractError("%s: impl without fn" % where)
+    return found
+
+
+class FormTr:
+    """one fn body -> Lean term over the abstract domain; callees become parameters (in order of first use)"""
+    def __init__(self, where, fn_name, mut_self, has_result):
+        self.where, self.fn_name, self.mut_self, self.has_result = where, fn_name, mut_self, has_result
+        self.params = []          # [(lean name, type text)]
+        self.locals = set()
+        self.from_ty = None
+        self.tmp = 0
+        self.guards = []
+        self.self_by_value = True
+
+    def err(self, msg):
+        raise ExtractError("%s: %s" % (self.where, msg))
+
+    def callee(self, name, arity, result):
+        ty = " → ".join(["V"] * arity + [result]) if arity else result
+        for n, t in self.params:
+            if n == name:
+                if t != ty:
+                    self.err("callee %s used at two types (%s, %s)" % (name, t, ty))
+                return name
+        if name in self.locals:
+            self.err("callee %s clashes with a local variable" % name)
+        self.params.append((name, ty))
+        return name
+
+    @staticmethod
+    def meta(n):
+        return ident(n) + "_" if n.startswith("$") else ident(n)
+
+    def pat(self, p):
+        if p[0] == "pvar":
+            self.locals.add(ident(p[1]))
+            return ident(p[1])
+        if p[0] == "pwild":
+            return "_"
+        if p[0] == "ptuple":
+            return "(" + ", ".join(self.pat(x) for x in p[1]) + ")"
+        self.err("pattern " + p[0])
+
+    def width(self, pat):
+        """result type of an expression bound by this pattern"""
+        if pat is not None and pat[0] == "ptuple":
+            if not all(x[0] in ("pvar", "pwild") for x in pat[1]):
+                self.err("nested tuple pattern")
+            return " × ".join(["V"] * len(pat[1]))
+        return "V"
+
+    def e(self, x, res="V"):
+        k = x[0]
+        if k == "path":
+            p = x[1]
+            if len(p) == 1:
+                n = ident(p[0])
+                if n in self.locals:
+                    return n
+                if p[0].startswith("$"):
+                    return self.callee(self.meta(p[0]) + "tok", 0, "M")      # a macro token handed on (`$method`)
+                if p[0][:1].isupper():
+                    return self.callee(n, 0, "V")                             # an imported constant (`Positive`)
+                self.err("unbound name %s" % p[0])
+            return self.callee(ident(p[-1]), 0, "V")                         # a constant (`Sign::Positive`)
+        if k == "tuple":
+            return "(" + ", ".join(self.e(i) for i in x[1]) + ")"
+        if k == "macro":
+            if not x[1].startswith("$"):
+                self.err("macro call %s! is not a `$metavariable` core" % x[1])
+            args = [self.e(a) for a in x[2]]
+            tys = ["M" if (a[0] == "path" and len(a[1]) == 1 and a[1][0].startswith("$") and ident(a[1][0]) not in self.locals)
+                   else "V" for a in x[2]]
+            return "(%s %s)" % (self.callee(self.meta(x[1]), 0, " → ".join(tys + ["O"])), " ".join(args))
+        if k == "mcall":
+            name, recv, args = x[2], x[1], x[3]
+            if name == "clone" and not args:
+                return self.e(recv)                                           # erased
+            if self.mut_self and name == self.fn_name and recv[0] == "path" and recv[1] == ["self"]:
+                self.err("call of the `&mut self` method itself below the statement level")
+            a = [self.e(recv)] + [self.e(i) for i in args]
+            return "(%s %s)" % (self.callee(self.meta(name), len(a), res), " ".join(a))
+        if k == "call":
+            f, args = x[1], x[2]
+            if f[0] != "path":
+                self.err("call of a computed function")
+            p = f[1]
+            if p[-3:] == ["core", "mem", "take"] and len(args) == 1:
+                return self.e(args[0])                                        # erased: the old value
+            if p[-1] == "from" and len(p) >= 2 and len(args) == 1:
+                ty = re.sub(r"\s+", "", p[-2])
+                if self.from_ty not in (None, ty):
+                    self.err("two different conversions %s::from / %s::from in one body" % (self.from_ty, ty))
+                self.from_ty = ty
+                return "(%s %s)" % (self.callee("from_", 1, "V"), self.e(args[0]))
+            a = [self.e(i) for i in args]
+            return "(%s %s)" % (self.callee(ident(p[-1]), len(a), res), " ".join(a)) if a else self.callee(ident(p[-1]), 0, res)
+        if k == "block" and not x[1] and x[2] is not None:
+            return self.e(x[2], res)
+        if k == "field":
+            return "(%s %s)" % (self.callee("fld_" + x[2], 1, "V"), self.e(x[1]))
+        if k == "refmut":
+            return self.e(x[1], res)
+        if k == "cast":
+            return "(%s %s)" % (self.callee("as_" + ident(x[2]), 1, "V"), self.e(x[1]))
+        if k == "un" and x[1] in ("!", "-"):
+            return "(%s %s)" % (self.callee("op_not" if x[1] == "!" else "op_neg", 1, "V"), self.e(x[2]))
+        if k == "bin" and x[1] in self.BINOPS:
+            return "(%s %s %s)" % (self.callee("op_" + self.BINOPS[x[1]], 2, "V"), self.e(x[2]), self.e(x[3]))
+        self.err("expression kind %s outside the subset" % k)
+
+    BINOPS = {"+": "add", "-": "sub", "*": "mul", "/": "div", "%": "rem"}
+
+    def root(self, place):
+        while place[0] == "field":
+            place = place[1]
+        n = ident(place[1][0])
+        if n not in self.locals:
+            self.err("assignment to the unbound name %s" % n)
+        if n == "self" and not (self.mut_self or self.self_by_value):
+            self.err("assignment through `&self`")
+        return n
+
+    def assign(self, s, out):
+        place = s[1] if s[0] == "assignp" else s[2]
+        rhs = self.hoist(s[2] if s[0] == "assignp" else s[3], out)
+        r = self.root(place)
+        fields = []
+        p = place
+        while p[0] == "field":
+            fields.append(p[2])
+            p = p[1]
+        fields.reverse()
+        v = self.e(rhs)
+        if s[0] == "assignop":
+            if s[1] not in self.BINOPS:
+                self.err("compound assignment %s=" % s[1])
+            v = "(%s %s %s)" % (self.callee("op_" + self.BINOPS[s[1]], 2, "V"), self.e(place), v)
+        if not fields:
+            return "let %s := %s" % (r, v)
+        return "let %s := (%s %s %s)" % (r, self.callee("upd_" + "_".join(fields), 2, "V"), r, v)
+
+    def hoist(self, x, out):
+        """`self.$method(args)` on a `&mut self` receiver where `$method` is the fn being defined (the same trait method
+        at another operand type): state passing — bind the new `self` (and the result) first"""
+        if x[0] == "mcall":
+            if self.mut_self and x[2] == self.fn_name and x[1][0] == "path" and x[1][1] == ["self"]:
+                a = ["self"] + [self.e(i) for i in x[3]]
+                if self.has_result:
+                    self.tmp += 1
+                    t = "r%d" % self.tmp
+                    self.locals.add(t)
+                    f = self.callee(self.meta(x[2]), len(a), "V × V")
+                    out.append("let (self, %s) := (%s %s)" % (t, f, " ".join(a)))
+                    return ("path", [t])
+                f = self.callee(self.meta(x[2]), len(a), "V")
+                out.append("let self := (%s %s)" % (f, " ".join(a)))
+                return ("unit",)
+            return ("mcall", self.hoist(x[1], out), x[2], x[3])
+        return x
+
+    def body(self, b):
+        _, stmts, tail = b
+        out = []
+        if tail is not None and tail[0] == "if" and tail[3] is None:
+            stmts, tail = list(stmts) + [("expr", tail)], None           # a trailing `if c { x op= e; }` is a statement
+        for s in stmts:
+            if s[0] == "let":
+                rhs = self.e(self.hoist(s[2], out), self.width(s[1]))
+                out.append("let %s := %s" % (self.pat(s[1]), rhs))
+            elif s[0] in ("assignp", "assignop"):
+                out.append(self.assign(s, out))
+            elif s[0] == "expr" and s[1][0] == "if" and s[1][3] is None and s[1][2][2] is None and s[1][2][1] \
+                    and all(t[0] in ("assignp", "assignop") for t in s[1][2][1]):
+                # `if c { place op= e; … }` on ONE root variable: the new value of that variable
+                inner = []
+                roots = set()
+                cond = self.e(s[1][1])
+                for t in s[1][2][1]:
+                    inner.append(self.assign(t, inner))
+                    roots.add(self.root(t[1] if t[0] == "assignp" else t[2]))
+                if len(roots) != 1:
+                    self.err("conditional assignment to more than one variable")
+                r = roots.pop()
+                out.append("let %s := (%s %s (%s; %s) %s)" % (r, self.callee("ite_", 3, "V"), cond, "; ".join(inner), r, r))
+            elif s[0] == "expr":
+                v = self.hoist(s[1], out)
+                if v == ("unit",):
+                    continue
+                if v[0] == "call" and v[1][0] == "path" and v[1][1][-1].startswith("assert_"):
+                    # a guard (`assert_finite_operands(&a, &b);`): its value is kept and returned beside the result
+                    self.tmp += 1
+                    g = "g%d" % self.tmp
+                    self.locals.add(g)
+                    self.guards.append(g)
+                    out.append("let %s := %s" % (g, self.e(v)))
+                    continue
+                self.err("expression statement without effect on `self`")
+            else:
+                self.err("statement %s outside the subset" % s[0])
+        val = None
+        if tail is not None:
+            v = self.hoist(tail, out)
+            if v != ("unit",):
+                val = self.e(v, "O" if v[0] == "macro" else "V")
+        if self.has_result and val is None:
+            self.err("fn with a result type but without a tail expression")
+        if self.mut_self:
+            val = "(self, %s)" % val if val is not None else "self"
+        elif val is None:
+            self.err("fn without value")
+        if self.guards:
+            val = "(%s, [%s])" % (val, ", ".join(self.guards))
+        return out, val
+
+
+def form_tag(lhs, rhs, self_kind):
+    l = "mut" if self_kind == "mut" else ("ref" if lhs.startswith("&") else "val")
+    r = "ref" if (rhs or "").startswith("&") else "val"
+    return l + "_" + r
+
+
+FORMS_FNS = [
+    # accessors whose by-value / by-reference variants the macro bodies mix: (definition, file, anchor, fn)
+    ("q_RBig_into_parts", "rational/src/rbig.rs", r"\nimpl RBig \{", "into_parts"),
+    ("q_RBig_numerator", "rational/src/rbig.rs", r"\nimpl RBig \{", "numerator"),
+    ("q_RBig_denominator", "rational/src/rbig.rs", r"\nimpl RBig \{", "denominator"),
+    ("q_Relaxed_into_parts", "rational/src/rbig.rs", r"\nimpl Relaxed \{", "into_parts"),
+    ("q_Relaxed_numerator", "rational/src/rbig.rs", r"\nimpl Relaxed \{", "numerator"),
+    ("q_Relaxed_denominator", "rational/src/rbig.rs", r"\nimpl Relaxed \{", "denominator"),
+]
+# ordinary source files: their own impl-generating macros and their hand-written operator impls
+FORMS_FILES = [
+    ("f", "float/src/add.rs"), ("f", "float/src/mul.rs"), ("f", "float/src/div.rs"), ("f", "float/src/shift.rs"),
+    ("f", "float/src/iter.rs"), ("q", "rational/src/iter.rs"), ("q", "rational/src/div.rs"), ("i", "integer/src/iter.rs"),
+]
+FORMS_TRAITS = {"Add", "Sub", "Mul", "Div", "Rem", "AddAssign", "SubAssign", "MulAssign", "DivAssign", "RemAssign",
+                "Shl", "Shr", "ShlAssign", "ShrAssign", "DivEuclid", "RemEuclid", "DivRemEuclid", "DivRem", "DivRemAssign",
+                "Inverse", "Sum", "Product"}
+
+
+def form_def(prefix_where, header, ibody, lean_name, doc_head):
+    """one impl item -> (Lean text, sha1, form tag pieces) ; raises ExtractError outside the subset"""
+    where = "%s `%s`" % (prefix_where, header)
+    trait, rhs, lhs = impl_header(header, where)
+    fn_name, params, has_result, btext = impl_fn(ibody, where)
+    self_kind = dict(params).get("self")
+    try:
+        ps = PF(tokenize(btext))
+        blk = ps.block()
+        if ps.peek()[0] != "eof":
+            raise ExtractError("trailing tokens after the body")
+    except IndexError:
+        raise ExtractError("%s: translator cannot read this body" % where)
+    except ExtractError as e:
+        raise ExtractError("%s: translator cannot read this body: %s" % (where, e))
+    tr = FormTr(where, fn_name, self_kind == "mut", has_result)
+    tr.self_by_value = self_kind == "val"
+    for nm, _ in params:
+        tr.locals.add(ident(nm))
+    lets, val = tr.body(blk)
+    sig = " ".join("(%s : %s)" % (n, t) for n, t in tr.params)
+    sig += (" " if sig else "") + " ".join("(%s : V)" % ident(nm) for nm, _ in params)
+    h = hashlib.sha1((header + ibody).encode()).hexdigest()[:12]
+    doc = "/-- %s: `%s` — `fn %s(%s)%s`, sha1 %s%s -/" % (
+        doc_head, header, fn_name, ", ".join(("&mut self" if k == "mut" else n) for n, k in params),
+        " -> _" if has_result else "", h, ("; conversion `%s::from`" % tr.from_ty) if tr.from_ty else "")
+    text = "".join("    %s\n" % l for l in lets) + "    %s" % val
+    return "%s\ndef %s %s :=\n%s\n" % (doc, lean_name, sig, text), h
+
+
+def _macro_forms(prefix, rel, src, out, info, table):
+    """every impl-generating `macro_rules!` of one file"""
+    for mac in re.findall(r"macro_rules!\s+(\w+)\s*\{", src):
+        rules = macro_rules_all(src, mac, rel)
+        if not any(re.search(r"\bimpl\b[^;{}()]*\bfor\b[^;{}()]*\{", re.sub(r"//[^\n]*", "", body)) for _, body in rules):
+            continue                      # not an impl-generating macro (assertion helpers, lists of invocations, …)
+        bearing = []
+        for ri, (pat, body) in enumerate(rules, 1):
+            items = rule_items(body, "%s `%s` rule %d" % (rel, mac, ri))
+            if any(it[0] == "impl" for it in items):
+                bearing.append((ri, items))
+            elif not items:
+                raise ExtractError("%s `%s` rule %d: empty rule" % (rel, mac, ri))
+        for ri, items in bearing:
+            stem = "%s_%s" % (prefix, mac) + ("_r%d" % ri if len(bearing) > 1 else "")
+            invokes = [it[1] for it in items if it[0] == "invoke"]
+            forms = []
+            for it in items:
+                if it[0] != "impl":
+                    continue
+                where = "%s `%s` rule %d" % (rel, mac, ri)
+                trait, rhs, lhs = impl_header(it[1], where)
+                _, params, _, _ = impl_fn(it[2], where + " `%s`" % it[1])
+                self_kind = dict(params).get("self")
+                if self_kind is None:
+                    tag = "fn"
+                else:
+                    tag = form_tag(lhs, rhs, self_kind)
+                lean_name = "%s_%s" % (stem, tag)
+                if lean_name in info:
+                    raise ExtractError("%s `%s`: second impl of the form %s in one rule" % (where, it[1], tag))
+                text, h = form_def(where, it[1], it[2], lean_name, where)
+                out.append(text)
+                info[lean_name] = h
+                forms.append(tag)
+            table.append((stem, rel, mac, ri, forms, invokes))
+
+
+def _handwritten_forms(prefix, rel, src, out, info, table, skipped):
+    """hand-written (top-level) operator impls of one file; a body outside the subset is listed, not translated"""
+    groups = {}
+    for m in re.finditer(r"(?m)^impl\b", src):
+        b0 = src.index("{", m.start())
+        header = " ".join(src[m.start():b0].split())
+        try:
+            trait, rhs, lhs = impl_header(header, rel)
+        except ExtractError:
+            continue
+        if trait not in FORMS_TRAITS:
+            continue
+        b1 = balanced(src, b0)
+        ibody = src[b0 + 1:b1 - 1]
+        where = "%s:%d" % (rel, line_of(src, m.start()))
+        try:
+            _, params, _, _ = impl_fn(ibody, where)
+            self_kind = dict(params).get("self")
+            tag = form_tag(lhs, rhs, self_kind) if self_kind else "fn"
+            base = re.sub(r"^&\s*(?:'\w+\s+)?", "", lhs).split("<")[0].strip()
+            stem = "%s_%s" % (prefix, trait) + ("" if base == "FBig" else "_" + base)
+            lean_name = "%s_%s" % (stem, tag)
+            if lean_name in info:
+                raise ExtractError("second hand-written impl of %s %s" % (trait, tag))
+            text, h = form_def(where, header, ibody, lean_name, where)
+        except ExtractError as e:
+            skipped.append((rel, header, str(e)))
+            continue
+        out.append(text)
+        info[lean_name] = h
+        groups.setdefault(stem, []).append(tag)
+    for stem, forms in groups.items():
+        table.append((stem, rel, "", 0, forms, []))
+
+
+def _gen_forms_glue():
+    out = ["/-! GENERATED by vlib/extract.py from /repo — do not edit.  The `fn` bodies of the ownership-form impls stamped out by",
+           "    the `helper_macros.rs` of dashu-ratio (`q_`), dashu-float (`f_`), dashu-int (`i_`), by the impl-generating macros of",
+           "    the operator files, and of the hand-written operator impls of those files: one definition per impl, over an",
+           "    abstract value domain `V` (results of `$impl!` cores: `O`; macro tokens handed on: `M`).  Callees (methods,",
+           "    `$metavariable` methods, cores, conversions, constructors, field projections `fld_x`, operators `op_add` …) are",
+           "    parameters; `&`, `*`, `.clone()`, `core::mem::take` are erased; `&mut self` is state passing (new `self` first);",
+           "    `assert_*(…);` guards are returned in a list beside the result. -/",
+           "namespace Dashu.Gen", "set_option linter.unusedVariables false", "variable {V O M : Type}", ""]
+    info, table, skipped = {}, [], []
+    for prefix, rel in FORMS_SOURCES:
+        _macro_forms(prefix, rel, read(rel), out, info, table)
+    for lean_name, rel, after, fn in FORMS_FNS:
+        src = read(rel)
+        m = re.search(after, src)
+        if not m:
+            raise ExtractError("%s: anchor %r not found" % (rel, after))
+        m2 = re.compile(r"fn\s+%s\b" % re.escape(fn)).search(src, m.end())
+        if not m2:
+            raise ExtractError("%s: fn %s not found" % (rel, fn))
+        b0 = src.index("{", m2.end())
+        b1 = balanced(src, b0)
+        where = "%s:%d" % (rel, line_of(src, m2.start()))
+        text, h = form_def(where, "impl %s" % lean_name.split("_")[1] + " for " + lean_name.split("_")[1], src[m2.start():b1], lean_name, where)
+        out.append(text)
+        info[lean_name] = h
+    for prefix, rel in FORMS_FILES:
+        src = read(rel)
+        _macro_forms(prefix, rel, src, out, info, table)
+        _handwritten_forms(prefix, rel, src, out, info, table, skipped)
+    out.append("/-- the families: (definition stem, file, macro (\"\" = hand-written impls), rule, forms, macros invoked beside the impls) -/")
+    out.append("def forms_glue_rules : List (String × String × String × Nat × List String × List String) := [")
+    out.append(",\n".join("    (\"%s\", \"%s\", \"%s\", %d, [%s], [%s])" % (
+        s, rel, mac, ri, ", ".join('"%s"' % f for f in forms), ", ".join('"%s"' % v for v in inv))
+        for s, rel, mac, ri, forms, inv in table))
+    out.append("  ]\n")
+    out.append("/-- hand-written operator impls whose body is outside the subset of this translator (file, impl header, reason) -/")
+    out.append("def forms_glue_untranslated : List (String × String × String) := [")
+    out.append(",\n".join("    (\"%s\", \"%s\", \"%s\")" % (r, h.replace('"', "'"), e.replace('"', "'").replace("\\", "/")) for r, h, e in skipped))
+    out.append("  ]\n")
+    out.append("end Dashu.Gen")
+    return "\n".join(out) + "\n", info
+
+
+def gen_forms_glue():
+    try:
+        return _gen_forms_glue()
+    except ExtractError:
+        raise
+    except Exception as e:                 # fail closed, never take another property's regeneration down
+        raise ExtractError("forms glue: translator cannot read the source: %r" % (e,))
+
+
 FILES = {"Glue.lean": gen_glue, "Round.lean": gen_round, "Misc.lean": gen_misc}
+FILES["FormsGlue.lean"] = gen_forms_glue          # C15: ownership-form bodies (additive)
+
+
+def gen_text_low():
+    """C07: the constants and the statement skeleton of the lowest printing layer — the SWAR digit -> ASCII routine
+    (integer/src/arch/generic/digits.rs), the `DigitCase` offsets (integer/src/radix.rs) and the `DigitWriter` buffer
+    length (integer/src/fmt/digit_writer.rs).  Fails closed when the routine no longer has the shape the model mirrors."""
+    def lit(s):
+        return int(s.replace("_", ""), 0)
+
+    def byte_expr(e, what):
+        # `b'a' - b'0' - 10`: byte literals and integers joined by + / -
+        toks = re.findall(r"b'(.)'|(0x[0-9a-fA-F_]+|\d[\d_]*)|([+-])|(\S)", e)
+        val, sign = 0, 1
+        for ch, num, op, other in toks:
+            if other:
+                raise ExtractError("%s: unexpected token %r in `%s`" % (what, other, e.strip()))
+            if op:
+                sign = 1 if op == "+" else -1
+            else:
+                val += sign * (ord(ch) if ch else lit(num))
+                sign = 1
+        if val < 0:
+            raise ExtractError("%s: negative value of `%s`" % (what, e.strip()))
+        return val
+
+    out = ["/-! GENERATED by vlib/extract.py from /repo — do not edit.  C07: constants of the SWAR digit conversion",
+           "    (arch/generic/digits.rs), of `DigitCase` (radix.rs) and of the `DigitWriter` buffer (fmt/digit_writer.rs). -/",
+           "namespace Dashu.Gen", ""]
+    info = {}
+    rel = "integer/src/arch/generic/digits.rs"
+    src = re.sub(r"//[^\n]*", "", read(rel))
+    _, body = fn_body(src, "digit_chunk_raw_to_ascii")
+    flat = re.sub(r"\s+", " ", body)
+    pats = [
+        ("swar_LANE_MAX", r"const ALL_ONES ?: ?Word ?= ?Word::MAX ?/ ?(0x[0-9a-fA-F_]+|\d+) ?;", "`ALL_ONES = Word::MAX / %s`"),
+        ("swar_BIAS_SHIFT", r"if digit_case != DigitCase::NoLetters \{ let letters ?= ?\(\( ?(0x[0-9a-fA-F_]+|\d+) ?\* ?ALL_ONES ?\+ ?word ?\) ?>> ?(\d+) ?\) ?& ?ALL_ONES ?; word ?\+= ?letters ?\* ?\(digit_case as Word\) ?; \}",
+         None),
+        ("swar_ASCII_ZERO", r"word ?\+= ?ALL_ONES ?\* ?\((b'.'|0x[0-9a-fA-F_]+|\d+) as Word\) ?;", "`word += ALL_ONES * (%s as Word)`"),
+    ]
+    vals = {}
+    for name, pat, doc in pats:
+        m = re.search(pat, flat)
+        if not m:
+            raise ExtractError("digit_chunk_raw_to_ascii (%s): statement for %s not found — the SWAR routine changed shape" % (rel, name))
+        vals[name] = m
+    if not re.search(r"let mut word ?= ?Word::from_ne_bytes\(\*digits\) ?;", flat) or \
+       not re.search(r"digits\.copy_from_slice\(&word\.to_ne_bytes\(\)\) ?;", flat):
+        raise ExtractError("digit_chunk_raw_to_ascii (%s): from_ne_bytes / to_ne_bytes frame not found" % rel)
+    if not re.search(r"pub const DIGIT_CHUNK_LEN ?: ?usize ?= ?WORD_BYTES ?;", re.sub(r"\s+", " ", src)):
+        raise ExtractError("%s: DIGIT_CHUNK_LEN is not WORD_BYTES" % rel)
+    lane = lit(vals["swar_LANE_MAX"].group(1))
+    bias, shift = lit(vals["swar_BIAS_SHIFT"].group(1)), int(vals["swar_BIAS_SHIFT"].group(2))
+    zero = byte_expr(vals["swar_ASCII_ZERO"].group(1), "swar_ASCII_ZERO")
+    for lean_name, v, doc in (("swar_LANE_MAX", lane, "`ALL_ONES = Word::MAX / %s`" % vals["swar_LANE_MAX"].group(1)),
+                              ("swar_BIAS", bias, "`(%s * ALL_ONES + word) >> %d` — the bias" % (vals["swar_BIAS_SHIFT"].group(1), shift)),
+                              ("swar_SHIFT", shift, "`(%s * ALL_ONES + word) >> %d` — the shift" % (vals["swar_BIAS_SHIFT"].group(1), shift)),
+                              ("swar_ASCII_ZERO", zero, "`word += ALL_ONES * (%s as Word)`" % vals["swar_ASCII_ZERO"].group(1))):
+        out.append("/-- %s in %s `digit_chunk_raw_to_ascii` -/\ndef %s : Nat := %d\n" % (doc, rel, lean_name, v))
+        info[lean_name] = v
+    info["swar_body"] = hashlib.sha1(flat.encode()).hexdigest()[:12]
+    # DigitCase discriminants
+    rel = "integer/src/radix.rs"
+    rsrc = re.sub(r"//[^\n]*", "", read(rel))
+    m = re.search(r"pub enum DigitCase\s*\{([^}]*)\}", rsrc)
+    if not m:
+        raise ExtractError("enum DigitCase not found in %s" % rel)
+    variants = dict((k, e) for k, e in re.findall(r"(\w+)\s*=\s*([^,}]+)", m.group(1)))
+    if sorted(variants) != ["Lower", "NoLetters", "Upper"]:
+        raise ExtractError("enum DigitCase in %s: unexpected variants %s" % (rel, sorted(variants)))
+    for k in ("NoLetters", "Lower", "Upper"):
+        v = byte_expr(variants[k], "DigitCase::" + k)
+        out.append("/-- `DigitCase::%s = %s` in %s -/\ndef digitcase_%s : Nat := %d\n" % (k, variants[k].strip(), rel, k, v))
+        info["digitcase_" + k] = v
+    # DigitWriter buffer
+    rel = "integer/src/fmt/digit_writer.rs"
+    wsrc = re.sub(r"//[^\n]*", "", read(rel))
+    v = const_value(wsrc, "BUFFER_LEN_MIN", rel)
+    if not re.search(r"const BUFFER_LEN ?: ?usize ?= ?math::round_up_usize\(BUFFER_LEN_MIN, ?arch::digits::DIGIT_CHUNK_LEN\) ?;",
+                     re.sub(r"\s+", " ", wsrc)):
+        raise ExtractError("%s: BUFFER_LEN is not round_up_usize(BUFFER_LEN_MIN, DIGIT_CHUNK_LEN)" % rel)
+    out.append("/-- `BUFFER_LEN_MIN` in %s (`BUFFER_LEN = round_up_usize(BUFFER_LEN_MIN, DIGIT_CHUNK_LEN)`) -/\ndef digit_writer_BUFFER_LEN_MIN : Nat := %d\n" % (rel, v))
+    info["digit_writer_BUFFER_LEN_MIN"] = v
+    out.append("end Dashu.Gen")
+    return "\n".join(out) + "\n", info
+
+
+FILES["TextLow.lean"] = gen_text_low              # C07: SWAR / DigitCase / DigitWriter constants (additive)
+
+
+def gen_modular():
+    """C13: decision logic of the multi-word reduced ring (integer/src/modular/{mul,pow,div}.rs) that the hand-written model
+    `lean/Dashu/Model/NT/{Modular,ModInvLarge}.lean` mirrors — the "needs a long division" tests of `mul_normalized` /
+    `sqr_normalized`, the cost model / loop guard / stop test / start value of `choose_pow_window_len`, and the `match raw_len`
+    dispatch + the "gcd == 1" test of `inv_large`.  `Props/C13` proves the model equal to these regenerated definitions.
+    Fails closed when a routine no longer has the shape the model mirrors."""
+    out = ["import Dashu.Model.GluePrelude",
+           "/-! GENERATED by vlib/extract.py from /repo — do not edit.  Decision logic of integer/src/modular (C13). -/",
+           "namespace Dashu.Gen.Modular", "open Dashu", "set_option linter.unusedVariables false", ""]
+    info = {}
+
+    def strip_comments(t):
+        return re.sub(r"//[^\n]*", "", t)
+
+    def h(t):
+        return hashlib.sha1(t.encode()).hexdigest()[:12]
+
+    msrc = read("integer/src/modular/mul.rs")
+    for fn, names, lean_name in (("mul_normalized", ["n", "na", "nb"], "mul_normalized_needs_division"),
+                                 ("sqr_normalized", ["n", "na"], "sqr_normalized_needs_division")):
+        _, body = fn_body(msrc, fn)
+        body = strip_comments(body)
+        mm = re.search(r"\bif\s+([^{};]+?)\s*\{\s*let\s+_overflow\s*=\s*div::div_rem_in_place\(", body)
+        if not mm:
+            raise ExtractError("integer/src/modular/mul.rs %s: `if … { let _overflow = div::div_rem_in_place(` not found" % fn)
+        cond = mm.group(1).strip()
+        if sorted(set(re.findall(r"\b[a-z_]\w*\b", cond))) != names:
+            raise ExtractError("integer/src/modular/mul.rs %s: unexpected operands in the division test: %s" % (fn, cond))
+        if len(re.findall(r"div::div_rem_in_place\(", body)) != 1:
+            raise ExtractError("integer/src/modular/mul.rs %s: more than one long division" % fn)
+        lean, _ = translate_body("{ " + cond + " }")
+        out.append("/-- `%s` (integer/src/modular/mul.rs): the product goes through `div_rem_in_place` iff `%s`\n    (otherwise one conditional subtraction) -/" % (fn, cond))
+        out.append("def %s (%s : Int) : Bool :=\n    %s\n" % (lean_name, " ".join(names), lean))
+        info["Modular." + lean_name] = h(cond)
+
+    psrc = read("integer/src/modular/pow.rs")
+    _, body = fn_body(psrc, "choose_pow_window_len")
+    body = strip_comments(body)
+    mm = re.search(r"let\s+cost\s*=\s*\|window_size\|\s*\(1usize\s*<<\s*\(window_size\s*-\s*(\d+)\)\)\s*-\s*(\d+)\s*\+\s*n\s*/\s*"
+                   r"\(window_size\s+as\s+usize\s*\+\s*(\d+)\)\s*;", body)
+    if not mm:
+        raise ExtractError("integer/src/modular/pow.rs choose_pow_window_len: cost closure is not "
+                           "`|window_size| (1usize << (window_size - a)) - b + n / (window_size as usize + c)`")
+    c1, c2, c3 = (int(x) for x in mm.groups())
+    out.append("/-- cost model of `choose_pow_window_len` (integer/src/modular/pow.rs): `%s` -/" % mm.group(0).strip())
+    out.append("def pow_window_cost (window_size n : Nat) : Nat :=\n    2 ^ (window_size - %d) - %d + n / (window_size + %d)\n" % (c1, c2, c3))
+    info["Modular.pow_window_cost"] = h(mm.group(0))
+    mi = re.search(r"let\s+mut\s+window_size\s*=\s*(\d+)\s*;", body)
+    mw = re.search(r"\bwhile\s+([^{};]+?)\s*\{", body)
+    mb = re.search(r"\bif\s+([^{};]+?)\s*\{\s*break\s*;", body)
+    ms = re.search(r"window_size\s*\+=\s*(\d+)\s*;", body)
+    if not (mi and mw and mb and ms) or len(re.findall(r"\bwhile\b", body)) != 1 or not re.search(r"let\s+c2\s*=\s*cost\(window_size\s*\+\s*1\)\s*;", body) \
+            or not re.search(r"let\s+mut\s+c\s*=\s*cost\(window_size\)\s*;", body) or int(ms.group(1)) != 1:
+        raise ExtractError("integer/src/modular/pow.rs choose_pow_window_len: loop no longer has the shape "
+                           "`let mut window_size = k; let mut c = cost(window_size); while G { let c2 = cost(window_size + 1); if S { break; } window_size += 1; c = c2; }`")
+    wcond = mw.group(1).strip().replace("usize::BIT_SIZE", "USIZE_BITS")
+    if sorted(set(re.findall(r"\b[A-Za-z_]\w*\b", wcond))) != ["USIZE_BITS", "WORD_BITS", "min", "window_size"]:
+        raise ExtractError("choose_pow_window_len: unexpected operands in the loop guard: %s" % mw.group(1))
+    lean, _ = translate_body("{ " + wcond + " }")
+    out.append("/-- loop guard of `choose_pow_window_len`: `%s` -/" % mw.group(1).strip())
+    out.append("def pow_window_continue (window_size WORD_BITS USIZE_BITS : Int) : Bool :=\n    %s\n" % lean)
+    bcond = mb.group(1).strip()
+    if sorted(set(re.findall(r"\b[a-z_]\w*\b", bcond))) != ["c", "c2"]:
+        raise ExtractError("choose_pow_window_len: unexpected operands in the stop test: %s" % bcond)
+    lean, _ = translate_body("{ " + bcond + " }")
+    out.append("/-- stop test of `choose_pow_window_len` (`c` = cost of the current window, `c2` = of the next): `%s` -/" % bcond)
+    out.append("def pow_window_stop (c c2 : Int) : Bool :=\n    %s\n" % lean)
+    out.append("/-- start value of `window_size` in `choose_pow_window_len` -/\ndef pow_window_init : Nat := %d\n" % int(mi.group(1)))
+    info["Modular.pow_window_loop"] = h(wcond + "|" + bcond + "|" + mi.group(1))
+
+    dsrc = read("integer/src/modular/div.rs")
+    _, body = fn_body(dsrc, "inv_large")
+    body = strip_comments(body)
+    mm = re.search(r"\bmatch\s+raw_len\s*\{", body)
+    if not mm:
+        raise ExtractError("integer/src/modular/div.rs inv_large: `match raw_len {` not found")
+    block = body[mm.end():balanced(body, mm.end() - 1) - 1]
+    heads = list(re.finditer(r"(?m)^\s*(\d+|_)\s*=>", block))
+    arms = []
+    for i, hd in enumerate(heads):
+        seg = block[hd.end():heads[i + 1].start() if i + 1 < len(heads) else len(block)]
+        k = re.search(r"gcd::(gcd_ext_\w+)\(", seg)
+        if k:
+            arms.append((hd.group(1), k.group(1)))
+        elif re.match(r"\s*return\s+None\s*,", seg):
+            arms.append((hd.group(1), "None"))
+        else:
+            raise ExtractError("inv_large: arm `%s =>` neither returns None nor calls a gcd::gcd_ext_* kernel" % hd.group(1))
+    pats = [a for a, _ in arms]
+    if not pats or pats[-1] != "_" or pats[:-1] != [str(i) for i in range(len(pats) - 1)]:
+        raise ExtractError("inv_large: `match raw_len` arms are not 0, 1, …, k, _ : %s" % pats)
+    out.append("/-- `match raw_len { … }` of `inv_large` (integer/src/modular/div.rs): which extended-gcd kernel runs for a residue of\n    `raw_len` words (`None`: no inverse without calling a kernel) -/")
+    lines = ["def inv_large_arm (raw_len : Nat) : String :=", "    match raw_len with"]
+    for a, kname in arms[:-1]:
+        lines.append("    | %s => \"%s\"" % (a, kname))
+    lines.append("    | _ => \"%s\"" % arms[-1][1])
+    out.append("\n".join(lines) + "\n")
+    info["Modular.inv_large_arm"] = h(repr(arms))
+    mo = re.search(r"\(\s*(g_len\s*==\s*\d+\s*&&\s*\*raw\.0\.first\(\)\.unwrap\(\)\s*==\s*\d+)\s*,\s*b_sign\s*\)", block)
+    if not mo:
+        raise ExtractError("inv_large: the multi-word arm no longer ends in `(g_len == 1 && *raw.0.first().unwrap() == 1, b_sign)`")
+    ocond = mo.group(1).replace("*raw.0.first().unwrap()", "raw0")
+    lean, _ = translate_body("{ " + ocond + " }")
+    out.append("/-- \"the gcd is one\" in the `gcd_ext_in_place` arm of `inv_large` (`raw0` = lowest word of the gcd left in `raw`): `%s` -/" % mo.group(1))
+    out.append("def inv_large_gcd_is_one (g_len raw0 : Int) : Bool :=\n    %s\n" % lean)
+    info["Modular.inv_large_gcd_is_one"] = h(ocond)
+    small = re.findall(r"\(\s*g\s*==\s*(\d+)\s*,\s*b_sign\s*\)", block)
+    if small != ["1"] * (len(arms) - 2):
+        raise ExtractError("inv_large: the word / double-word arms no longer end in `(g == 1, b_sign)`")
+    out.append("end Dashu.Gen.Modular")
+    return "\n".join(out) + "\n", info
+
+
+FILES["Modular.lean"] = gen_modular               # C13: reduced-ring decision logic (additive)
+
+
+# ------------------------------------------------------------------ C09: integer/src/math.rs helpers over CHECKED machine integers
+
+def gen_math_helpers():
+    """C09 (Tie A): the small arithmetic helpers of integer/src/math.rs (`bit_len`, `ceil_log2`, `ceil_div`, `ceil_div_usize`,
+    `round_up`, `round_up_usize`, `ones_word`, `ones_dword`, `shl_dword`, `shr_word`) translated statement by statement into
+    Lean definitions over the CHECKED machine-integer operations of `Dashu/Model/GluePrelude/MachInt.lean` (`none` = the
+    Rust operation overflows).  `Props/GenMath.lean` proves each body total on its domain and equal to its specification
+    (and to the definition the hand-written bit model uses), so a rewrite such as `(a + (b - 1)) / b` for `ceil_div` — equal
+    on unbounded integers, overflowing near the type maximum — no longer checks.  Fails closed outside the subset."""
+    rel = "integer/src/math.rs"
+    src = read(rel)
+    # width of a Rust type, as a Lean term (None: not an integer type of the subset)
+    WIDTH = {"T": "bits", "usize": "U", "u32": "32", "Word": "W", "DoubleWord": "(2 * W)"}
+    NEEDS = {"T": "bits", "usize": "U", "Word": "W", "DoubleWord": "W"}
+    FNS = ["bit_len", "ceil_log2", "ceil_div", "ceil_div_usize", "round_up", "round_up_usize", "ones_word", "ones_dword",
+           "shl_dword", "shr_word"]
+    sigs, out, info = {}, [], {}
+    out += ["import Dashu.Model.GluePrelude.MachInt",
+            "/-! GENERATED by vlib/extract.py from /repo — do not edit.  C09: the helpers of `integer/src/math.rs` over checked",
+            "    machine integers (`none` = arithmetic overflow: a panic in debug builds, a wrapped value in release builds). -/",
+            "namespace Dashu.Gen.MathHelpers", "open Dashu.GluePrelude", "set_option linter.unusedVariables false", ""]
+
+    def ret_widths(ret, what):
+        ret = ret.strip()
+        if ret.startswith("("):
+            return [ret_widths(x, what)[0] for x in split_top(ret[1:-1]) if x.strip()]
+        if ret not in WIDTH:
+            raise ExtractError("%s: result type `%s` outside the subset" % (what, ret))
+        return [WIDTH[ret]]
+
+    for name in FNS:
+        it = fn_item(src, name, rel=rel)
+        what = "%s (%s:%d)" % (name, rel, it["lines"][0])
+        toks = tokenize(it["body"])
+        if any(v == "as" for _, v in toks):
+            raise ExtractError("%s: a cast (`as`) appeared in the body — not in the subset (casts change the width)" % what)
+        wparams = []
+        for pn, ty in it["params"]:
+            if ty not in WIDTH:
+                raise ExtractError("%s: parameter type `%s` outside the subset" % (what, ty))
+            if NEEDS.get(ty) and NEEDS[ty] not in wparams:
+                wparams.append(NEEDS[ty])
+        rw = ret_widths(it["ret"] or "", what)
+        for ty in re.findall(r"\b(Word|DoubleWord|WORD_BITS|DWORD_BITS)\b", it["body"] + " " + (it["ret"] or "")):
+            if "W" not in wparams:
+                wparams.append("W")
+        sigs[name] = (wparams, [pn for pn, _ in it["params"]], rw)
+        env = dict((pn, WIDTH[ty]) for pn, ty in it["params"])
+        ast = P(toks).block()
+        counter = [0]
+
+        def fresh():
+            counter[0] += 1
+            return "t_%d" % counter[0]
+
+        def unify(a, b, ctx):
+            if a is None:
+                return b
+            if b is None or a == b:
+                return a
+            raise ExtractError("%s: operands of different widths (%s, %s) in `%s`" % (what, a, b, ctx))
+
+        def ex(e, env, lines, ind):
+            """-> (Lean atom, width term | None for an untyped literal | 'Bool' | ('tuple', [...]))"""
+            k = e[0]
+            if k == "num":
+                return str(int(re.sub(r"[iu](8|16|32|64|128|size)$", "", e[1]).replace("_", ""), 0)), None
+            if k == "path":
+                p = tuple(e[1])
+                if len(p) == 1 and p[0] in env:
+                    return p[0], env[p[0]]
+                if p == ("T", "BIT_SIZE"):
+                    return "bits", "32"
+                if p in (("Word", "BIT_SIZE"), ("WORD_BITS",)):
+                    return "W", "32"
+                if p == ("DWORD_BITS",):
+                    return "(2 * W)", "32"
+                if p == ("Word", "MAX"):
+                    return "(MachInt.maxVal W)", "W"
+                if p == ("DoubleWord", "MAX"):
+                    return "(MachInt.maxVal (2 * W))", "(2 * W)"
+                raise ExtractError("%s: name `%s` outside the subset" % (what, "::".join(p)))
+            if k == "call" and e[1][0] == "path":
+                f = tuple(e[1][1])
+                args = e[2]
+                if f == ("T", "from") and len(args) == 1 and args[0][0] == "num":
+                    return ex(args[0], env, lines, ind)[0], "bits"
+                if f == ("split_dword",) and len(args) == 1:
+                    a, w = ex(args[0], env, lines, ind)
+                    unify(w, "(2 * W)", "split_dword")
+                    return "(MachInt.split_dword W %s)" % a, ("tuple", ["W", "W"])
+                if f == ("extend_word",) and len(args) == 1:
+                    a, w = ex(args[0], env, lines, ind)
+                    unify(w, "W", "extend_word")
+                    return a, "(2 * W)"
+                if f == ("double_word",) and len(args) == 2:
+                    a, wa = ex(args[0], env, lines, ind)
+                    b, wb = ex(args[1], env, lines, ind)
+                    unify(wa, "W", "double_word"); unify(wb, "W", "double_word")
+                    return "(MachInt.double_word W %s %s)" % (a, b), "(2 * W)"
+                if len(f) == 1 and f[0] in sigs:
+                    wp, pns, rws = sigs[f[0]]
+                    if len(args) != len(pns):
+                        raise ExtractError("%s: call of %s with %d arguments" % (what, f[0], len(args)))
+                    for w_ in wp:
+                        if w_ not in sigs[name][0]:
+                            raise ExtractError("%s: call of %s needs the width parameter %s" % (what, f[0], w_))
+                    atoms = [ex(a, env, lines, ind)[0] for a in args]
+                    t = fresh()
+                    lines.append("%slet %s ← %s %s" % (ind, t, f[0], " ".join(wp + atoms)))
+                    return t, (rws[0] if len(rws) == 1 else ("tuple", rws))
+                raise ExtractError("%s: call of `%s` outside the subset" % (what, "::".join(f)))
+            if k == "mcall" and e[2] == "leading_zeros" and not e[3]:
+                a, w = ex(e[1], env, lines, ind)
+                if w is None:
+                    raise ExtractError("%s: leading_zeros of an untyped literal" % what)
+                return "(MachInt.leading_zeros %s %s)" % (w, a), "32"
+            if k == "bin":
+                op = e[1]
+                a, wa = ex(e[2], env, lines, ind)
+                b, wb = ex(e[3], env, lines, ind)
+                if op in ("==", "!=", "<", ">", "<=", ">="):
+                    unify(wa, wb, op)
+                    lop = {"==": "==", "!=": "!=", "<": "<", ">": ">", "<=": "≤", ">=": "≥"}[op]
+                    return ("(%s %s %s)" % (a, lop, b)) if op in ("==", "!=") else ("(decide (%s %s %s))" % (a, lop, b)), "Bool"
+                if op in ("<<", ">>"):
+                    if wa is None or isinstance(wa, tuple):
+                        raise ExtractError("%s: shift of an untyped value" % what)
+                    unify(wb, "32", op)
+                    t = fresh()
+                    lines.append("%slet %s ← MachInt.%s %s %s %s" % (ind, t, "shl" if op == "<<" else "shr", wa, a, b))
+                    return t, wa
+                if op in ("+", "-", "*", "/"):
+                    w = unify(wa, wb, op)
+                    if w is None or isinstance(w, tuple):
+                        raise ExtractError("%s: arithmetic on untyped values" % what)
+                    t = fresh()
+                    lines.append("%slet %s ← MachInt.%s %s %s %s" % (ind, t, {"+": "add", "-": "sub", "*": "mul", "/": "div"}[op], w, a, b))
+                    return t, w
+                if op in ("|", "&", "^"):
+                    w = unify(wa, wb, op)
+                    return "(%s %s %s)" % (a, {"|": "|||", "&": "&&&", "^": "^^^"}[op], b), w
+                raise ExtractError("%s: operator `%s` outside the subset" % (what, op))
+            if k == "tuple":
+                parts = [ex(x, env, lines, ind) for x in e[1]]
+                return "(" + ", ".join(p[0] for p in parts) + ")", ("tuple", [p[1] for p in parts])
+            raise ExtractError("%s: expression form `%s` outside the subset" % (what, k))
+
+        def blk(b, env, lines, ind):
+            env = dict(env)
+            assert b[0] == "block"
+            for st in b[1]:
+                if st[0] == "let":
+                    a, w = ex(st[2], env, lines, ind)
+                    pat = st[1]
+                    if pat[0] == "pvar":
+                        lines.append("%slet %s := %s" % (ind, pat[1], a))
+                        env[pat[1]] = w
+                    elif pat[0] == "ptuple" and isinstance(w, tuple) and len(w[1]) == len(pat[1]) and all(p[0] == "pvar" for p in pat[1]):
+                        t = fresh()
+                        lines.append("%slet %s := %s" % (ind, t, a))
+                        n = len(pat[1])
+                        for i, p in enumerate(pat[1]):
+                            lines.append("%slet %s := %s" % (ind, p[1], proj(t, i, n)))
+                            env[p[1]] = w[1][i]
+                    else:
+                        raise ExtractError("%s: `let` pattern outside the subset" % what)
+                else:
+                    raise ExtractError("%s: statement `%s` outside the subset" % (what, st[0]))
+            tail = b[2]
+            if tail is None:
+                raise ExtractError("%s: block without a result" % what)
+            if tail[0] == "if":
+                c, wc = ex(tail[1], env, lines, ind)
+                if wc != "Bool" or tail[3] is None or tail[3][0] != "block":
+                    raise ExtractError("%s: `if` outside the subset" % what)
+                lines.append("%sif %s then do" % (ind, c))
+                blk(tail[2], env, lines, ind + "  ")
+                lines.append("%selse do" % ind)
+                blk(tail[3], env, lines, ind + "  ")
+                return
+            a, w = ex(tail, env, lines, ind)
+            lines.append("%spure %s" % (ind, a))
+
+        lines = []
+        blk(ast, env, lines, "    ")
+        wp, pns, rws = sigs[name]
+        rty = "Nat" if len(rws) == 1 else " × ".join(["Nat"] * len(rws))
+        sha = hashlib.sha1(re.sub(r"\s+", " ", it["text"]).encode()).hexdigest()[:12]
+        out.append("/-- `math::%s` — %s:%d-%d, sha1 %s -/" % (name, rel, it["lines"][0], it["lines"][1], sha))
+        out.append("def %s %s: Option (%s) := do" % (name, "".join("(%s : Nat) " % x for x in wp + pns), rty))
+        out += lines
+        out.append("")
+        info["MathHelpers." + name] = sha
+    out.append("end Dashu.Gen.MathHelpers")
+    return "\n".join(out) + "\n", info
+
+
+FILES["MathHelpers.lean"] = gen_math_helpers      # C09: math.rs helpers over checked machine integers (additive)
+
 # the v2 areas (typed translator) are listed by build_areas(); one Gen file each
 V2_FILES = [a.name + ".lean" for a in build_areas()]
 
@@ -2996,6 +3998,21 @@ MUTATIONS = [
      "`IBig >> n` of a negative number truncates toward zero instead of rounding toward -inf (first form only)"),
     ("M17", "integer/src/cmp.rs", r"\(Negative, Negative\) => rhs_mag\.cmp\(&lhs_mag\),", "(Negative, Negative) => lhs_mag.cmp(&rhs_mag),",
      "`Ord for IBig` compares two negative numbers by magnitude the wrong way round"),
+    ("M18", "float/src/shift.rs", r"(fn shr_assign\(&mut self, rhs: isize\) \{.*?)self\.repr\.exponent -= rhs;", "\\1self.repr.exponent -= rhs;\n            self.repr.exponent -= rhs;",
+     "float `>>=` shifts twice (the historical call-form defect; Props/C15Forms.f_shift_forms)"),
+    ("M20", "float/src/add.rs", r"Ordering::Greater => context\.repr_add_small_large\(rhs\.repr, &lhs\.repr, Positive\),\n(\s*)Ordering::Less => context\.repr_add_large_small\(rhs\.repr, &lhs\.repr, Positive\),",
+     "Ordering::Greater => context.repr_add_large_small(rhs.repr, &lhs.repr, Positive),\n\\1Ordering::Less => context.repr_add_small_large(rhs.repr, &lhs.repr, Positive),",
+     "add_ref_val (`&a + b`, the consuming form with exchanged operands) calls the two alignment routines the wrong way round (Props/C15FloatAdd)"),
+    ("M19", "rational/src/helper_macros.rs", r"let \(ra, rb, rc, rd\) = \(&a, &b, c, d\);", "let (ra, rb, rc, rd) = (&a, &b, d, c);",
+     "ratio `a op &b` form hands the core the rhs parts exchanged (Props/C15Forms.q_binop_with_macro_forms)"),
+    ("M21", "integer/src/math.rs", r"pub fn ceil_div<T: PrimitiveUnsigned>\(a: T, b: T\) -> T \{\n\s*if a == T::from\(0u8\) \{\n\s*T::from\(0u8\)\n\s*\} else \{\n\s*\(a - T::from\(1u8\)\) / b \+ T::from\(1u8\)\n\s*\}",
+     "pub fn ceil_div<T: PrimitiveUnsigned>(a: T, b: T) -> T {\n    (a + (b - T::from(1u8))) / b",
+     "ceil_div written as the textbook `(a + (b - 1)) / b`: equal on unbounded integers, overflows within b-1 of the type maximum (Props/GenMath.gen_ceil_div)"),
+    ("M22", "integer/src/math.rs", r"pub const fn ones_word\(n: u32\) -> Word \{\n\s*if n == 0 \{\n\s*0\n\s*\} else \{\n\s*Word::MAX >> \(Word::BIT_SIZE - n\)\n\s*\}",
+     "pub const fn ones_word(n: u32) -> Word {\n    Word::MAX >> (Word::BIT_SIZE - n)",
+     "ones_word without the `n == 0` arm: the shift amount reaches the width (Props/GenMath.gen_ones_word)"),
+    ("M23", "integer/src/math.rs", r"let \(c, r\) = split_dword\(double_word\(0, w\) >> shift\);\n(\s*)\(r, c\)", "let (c, r) = split_dword(double_word(0, w) >> shift);\n\\1(c, r)",
+     "shr_word returns (shifted-out bits, result) in the wrong order (Props/GenMath.gen_shr_word)"),
 ]
 
 
@@ -3036,6 +4053,8 @@ BENIGN = [
      "commuted operands of `bitand` (impl_ibig_bitand)"),
     ("R14", "float/src/round.rs", r"(impl Round for mode::HalfEven \{.*?match low_half_test\(\) \{\n)(\s*// \|rem\| < 1/2\n\s*Ordering::Less => Rounding::NoOp,\n)(.*?)(\s*// \|rem\| > 1/2\n\s*Ordering::Greater => \{.*?\n            \}\n)",
      "\\1\\4\\3\\2", "match arms Less / Greater exchanged (mode::HalfEven::round_low_part)"),
+    ("R15", "float/src/helper_macros.rs", r"self\.\$method\(FBig::<R, B>::from\(rhs\)\)", "self.$method(FBig::<R, B>::from(rhs.clone()))",
+     "an extra `.clone()` in one primitive-operand form (erased by the ownership-form translator)"),
 ]
 
 
@@ -3044,7 +4063,7 @@ def _theorem_modules_over(gen_file):
     pdir = os.path.join(ROOT, "lean", "Dashu", "Props")
     out = []
     for f in sorted(os.listdir(pdir)):
-        if f.endswith(".lean") and (f.startswith("Gen") or f in ("C17.lean", "C18.lean")):
+        if f.endswith(".lean") and (f.startswith("Gen") or f in ("C17.lean", "C18.lean", "C15Forms.lean", "C15FloatAdd.lean")):
             m = "Dashu.Props." + f[:-5]
             if gen_file in gen_files_needed([m]):
                 out.append(m)
